@@ -1018,6 +1018,12 @@ package op
 //@        && callarg("op.AuthStorage.RevokeToken", 3) == callres("op.ParseTokenRevocationRequest", 2)
 //@   ensures garbage-token-still-ok: called("op.AuthStorage.RevokeToken") && callres("op.AuthStorage.RevokeToken", 0) == nil ==> Resp_status[w] == 200
 //@   ensures refresh-lookup-by-caller: called("op.AuthStorage.GetRefreshTokenInfo") ==> callarg("op.AuthStorage.GetRefreshTokenInfo", 1) == callres("op.ParseTokenRevocationRequest", 2)
+//@   ensures not-a-refresh-token-is-tried-as-access-token: called("op.AuthStorage.RevokeToken") && !(called("op.AuthStorage.GetRefreshTokenInfo") && callres("op.AuthStorage.GetRefreshTokenInfo", 2) == nil)
+//@        ==> called("op.getTokenIDAndSubjectForRevocation")
+//@   ensures decoded-token-id-is-revoked: called("op.AuthStorage.RevokeToken") && called("op.getTokenIDAndSubjectForRevocation") && callres("op.getTokenIDAndSubjectForRevocation", 2)
+//@        ==> callarg("op.AuthStorage.RevokeToken", 1) == callres("op.getTokenIDAndSubjectForRevocation", 0) && callarg("op.AuthStorage.RevokeToken", 2) == callres("op.getTokenIDAndSubjectForRevocation", 1)
+//@   ensures known-refresh-token-id-is-revoked: called("op.AuthStorage.RevokeToken") && called("op.AuthStorage.GetRefreshTokenInfo") && callres("op.AuthStorage.GetRefreshTokenInfo", 2) == nil
+//@        ==> callarg("op.AuthStorage.RevokeToken", 1) == callres("op.AuthStorage.GetRefreshTokenInfo", 1) && callarg("op.AuthStorage.RevokeToken", 2) == callres("op.AuthStorage.GetRefreshTokenInfo", 0)
 //@   ensures storage-fail-closed: !old(storageFailed) && storageFailed ==> Resp_status[w] >= 400
 
 // ---- C20: no hidden writes to package-level defaults or caller-/storage-owned objects ----
@@ -1172,3 +1178,15 @@ package op
 //@   ensures per-request-issuer: callarg("op.NewAccessTokenVerifier", 0) == callres("op.IssuerFromContext", 0)
 //@   ensures access-token-key-set: callarg("op.NewAccessTokenVerifier", 1) == old(o.accessTokenKeySet)
 //@   ensures fresh-verifier: result == callres("op.NewAccessTokenVerifier", 0)
+
+// ---- C08: revocation on the Server-interface router identifies the token the same way ----
+//@ func op.LegacyServer.Revocation
+//@   requires s != nil && r != nil && valid(s.provider) && valid(r.Client) && r.Data != nil
+//@   ensures ok-only-after-storage: result1 == nil ==> called("op.AuthStorage.RevokeToken") && callres("op.AuthStorage.RevokeToken", 0) == nil
+//@        && callarg("op.AuthStorage.RevokeToken", 3) == r.Client.GetID()
+//@   ensures not-a-refresh-token-is-tried-as-access-token: called("op.AuthStorage.RevokeToken") && !(called("op.AuthStorage.GetRefreshTokenInfo") && callres("op.AuthStorage.GetRefreshTokenInfo", 2) == nil)
+//@        ==> called("op.getTokenIDAndSubjectForRevocation")
+//@   ensures decoded-token-id-is-revoked: called("op.AuthStorage.RevokeToken") && called("op.getTokenIDAndSubjectForRevocation") && callres("op.getTokenIDAndSubjectForRevocation", 2)
+//@        ==> callarg("op.AuthStorage.RevokeToken", 1) == callres("op.getTokenIDAndSubjectForRevocation", 0) && callarg("op.AuthStorage.RevokeToken", 2) == callres("op.getTokenIDAndSubjectForRevocation", 1)
+//@   ensures known-refresh-token-id-is-revoked: called("op.AuthStorage.RevokeToken") && called("op.AuthStorage.GetRefreshTokenInfo") && callres("op.AuthStorage.GetRefreshTokenInfo", 2) == nil
+//@        ==> callarg("op.AuthStorage.RevokeToken", 1) == callres("op.AuthStorage.GetRefreshTokenInfo", 1) && callarg("op.AuthStorage.RevokeToken", 2) == callres("op.AuthStorage.GetRefreshTokenInfo", 0)
